@@ -341,6 +341,33 @@ def _check_sort_sites(repo: Repo, L: Ledger, cls, keyf: Func):
             else:
                 L.fail("R4", inst, f"sort key is {shape}, expected the natural key or (rank, natural key)", m.loc(n))
     L.floor("R4", "scaffold sort sites in Assembly", n_sites, 2)
+    # nothing stores a by-name-only ordering back into an assembly's scaffold list (that would undo the rank-first order)
+    by_name = {m.name for m in cls.methods.values() for n in walk_shallow(m.node) if isinstance(n, ast.Return) and isinstance(n.value, ast.Call) and dotted(n.value.func) == "sorted" and kw(n.value, "key") is not None and _key_shape(repo, m, kw(n.value, "key"), keyf) == "natural"}
+    n_st = 0
+    for f in repo.functions.values():
+        for n in walk_shallow(f.node):
+            if isinstance(n, ast.Assign) and any(isinstance(t, ast.Attribute) and t.attr == "scaffolds" for t in n.targets):
+                n_st += 1
+                calls = [c for c in ast.walk(n.value) if isinstance(c, ast.Call) and isinstance(c.func, ast.Attribute) and c.func.attr in by_name]
+                if calls:
+                    L.fail("R4", f"{f.short}:scaffolds=", f"'{norm(n)[:70]}' replaces an assembly's scaffold list by its by-name listing ({calls[0].func.attr}() ignores the rank): unplaced scaffolds whose names sort first are written before the chromosomes", f.loc(n), witness={"names": "HAP2_SCAFFOLD_4 (rank 3) < SUPER_1 (rank 1)"})
+    L.ok("R4", "scaffolds= stores", f"{n_st} stores into a scaffolds attribute: none takes a by-name-only listing", cls.module.relpath)
+    # the first component of the output sort key is the rank: it must be an integer for every scaffold, including those
+    # built without one (parsers, Scaffold(name), Scaffold.reverse()) — a None default makes the sort raise TypeError
+    scf = repo.cls("Scaffold")
+    init = scf.methods.get("__init__")
+    if init is not None and "rank" in init.params():
+        from ..util import param_default
+
+        d = param_default(init, "rank")
+        dv = try_fold(d, default="?") if d is not None else "?"
+        stores = [n for n in walk_shallow(init.node) if isinstance(n, ast.Assign) and any(norm(t) == "self.rank" for t in n.targets)]
+        plain = len(stores) == 1 and norm(stores[0].value) == "rank"
+        L.check(
+            isinstance(dv, int) and not isinstance(dv, bool) and plain, "R4", "Scaffold.__init__:rank-default", f"a scaffold built without a rank gets the integer {dv}",
+            f"a scaffold built without a rank gets rank {dv!r}: the output sort key (rank, natural key) then compares None with int and smart_sort_scaffolds() raises TypeError as soon as ranked and unranked scaffolds share an assembly",
+            init.loc(), witness={"assembly": "[Scaffold('a') (no rank), Scaffold('b', rank=1)]"},
+        )
     # the output order (smart sort) must put rank first
     smart = [m for m in cls.methods.values() if any(isinstance(n, ast.Attribute) and n.attr == "rank" for n in ast.walk(m.node))]
     if not smart:
